@@ -4,7 +4,8 @@ import random
 from . import common, gen, harness
 
 METHODS_EXPLICIT = ["DOPRI5", "DOP853", "RK23", "RK4"]
-METHODS_ALL = list(METHODS_EXPLICIT)
+METHODS_IMPLICIT = ["RADAU", "BDF"]
+METHODS_ALL = METHODS_EXPLICIT + METHODS_IMPLICIT
 
 
 def available_methods():
